@@ -89,8 +89,10 @@ class Client(OAuth2ClientMixin):
         self.client_secret = secret
         self.client_id_issued_at = 0
         self.client_secret_expires_at = 0
-        self.set_client_metadata({"redirect_uris": list(uris), "scope": scope, "grant_types": list(grant_types),
-                                  "response_types": list(response_types), "token_endpoint_auth_method": method})
+        md = {"redirect_uris": list(uris), "scope": scope, "grant_types": list(grant_types), "response_types": list(response_types), "token_endpoint_auth_method": method}
+        if method is None:
+            md.pop("token_endpoint_auth_method")          # registered without the member: RFC 7591's default (client_secret_basic) applies
+        self.set_client_metadata(md)
         self.extra = extra or {}
 
 
@@ -198,8 +200,9 @@ class Store:
 
 class Req:
     """framework request as the harness hands it to the server"""
-    def __init__(self, method="POST", uri="https://as.example/ep", form=None, headers=None, user=None):
+    def __init__(self, method="POST", uri="https://as.example/ep", form=None, headers=None, user=None, json_body=None):
         self.method, self.uri, self.form, self.headers, self.user = method, uri, form or {}, headers or {}, user
+        self.json_body = json_body          # a JSON document as the request body (Content-Type: application/json) instead of a form
 
 
 class Resp:
@@ -330,8 +333,8 @@ def fw_call(srv, req, what, *pre, **kw):
     u = _up(req.uri)
     path = u.path + ("?" + u.query if u.query else "")
     if fw == "flask":
-        with srv.app.test_request_context(path, method=req.method, data=dict(req.form) if req.method != "GET" else None, headers=dict(req.headers),
-                                          base_url=f"{u.scheme}://{u.netloc}"):
+        body_kw = {"json": req.json_body} if getattr(req, "json_body", None) is not None else {"data": dict(req.form) if req.method != "GET" else None}
+        with srv.app.test_request_context(path, method=req.method, headers=dict(req.headers), base_url=f"{u.scheme}://{u.netloc}", **body_kw):
             r = getattr(srv, what)(*pre, None, **kw)
             if hasattr(r, "status_code"):
                 ct = r.headers.get("Content-Type", "")
@@ -341,7 +344,10 @@ def fw_call(srv, req, what, *pre, **kw):
     from django.test import RequestFactory
     rf = RequestFactory()
     extra = {"HTTP_" + k.upper().replace("-", "_"): v for k, v in dict(req.headers).items()}
-    dreq = (rf.get if req.method == "GET" else rf.post)(path, **({} if req.method == "GET" else {"data": dict(req.form)}), secure=u.scheme == "https", HTTP_HOST=u.netloc, **extra)
+    if getattr(req, "json_body", None) is not None:
+        dreq = rf.post(path, data=json.dumps(req.json_body), content_type="application/json", secure=u.scheme == "https", HTTP_HOST=u.netloc, **extra)
+    else:
+        dreq = (rf.get if req.method == "GET" else rf.post)(path, **({} if req.method == "GET" else {"data": dict(req.form)}), secure=u.scheme == "https", HTTP_HOST=u.netloc, **extra)
     r = getattr(srv, what)(*pre, dreq, **kw)
     if hasattr(r, "status_code"):
         text = r.content.decode()
